@@ -9,8 +9,10 @@ import (
 	"encoding/json"
 	"fmt"
 	"math/rand"
+	"runtime"
 	"sort"
 	"sync"
+	"sync/atomic"
 	"testing"
 
 	corev1 "k8s.io/api/core/v1"
@@ -32,6 +34,8 @@ type c16Step struct {
 	CapNs    int    `json:"capNs,omitempty"`
 	CapTotal int    `json:"capTotal,omitempty"`
 	DryRun   bool   `json:"dryRun,omitempty"`
+	N        int    `json:"n,omitempty"`      // burst: number of calls released together
+	Spread   bool   `json:"spread,omitempty"` // burst: calls spread over two nodes / namespaces instead of one target
 }
 
 const c16NoCap = 99
@@ -40,12 +44,19 @@ type c16Gate struct {
 	mu      sync.Mutex
 	parked  map[string]chan bool // pod name -> answer of the API
 	arrived chan string
+	pass    atomic.Bool // burst mode: the API answers ok at once (after yielding the processor)
 }
 
-func newC16Gate() *c16Gate { return &c16Gate{parked: map[string]chan bool{}, arrived: make(chan string, 64)} }
+func newC16Gate() *c16Gate {
+	return &c16Gate{parked: map[string]chan bool{}, arrived: make(chan string, 64)}
+}
 
 // called from inside the fake API: park until the schedule releases this call
 func (g *c16Gate) enter(podName string) bool {
+	if g.pass.Load() {
+		runtime.Gosched()
+		return true
+	}
 	ch := make(chan bool)
 	g.mu.Lock()
 	g.parked[podName] = ch
@@ -63,13 +74,13 @@ func c16Cap(v int) *uint {
 }
 
 type c16World struct {
-	gate    *c16Gate
-	evict   func(ctx context.Context, pod *corev1.Pod) bool
-	counts  func() vu.Ev
-	podOf   map[string]string    // caller -> pod name currently in flight
-	retCh   map[string]chan bool // caller -> Evict's return value
-	seq     int
-	rec     *vu.Recorder
+	gate   *c16Gate
+	evict  func(ctx context.Context, pod *corev1.Pod) bool
+	counts func() vu.Ev
+	podOf  map[string]string    // caller -> pod name currently in flight
+	retCh  map[string]chan bool // caller -> Evict's return value
+	seq    int
+	rec    *vu.Recorder
 }
 
 func (w *c16World) inFlight() int { return len(w.podOf) }
@@ -104,6 +115,40 @@ func (w *c16World) step(s c16Step) {
 			ev["counters"] = w.counts()
 		}
 		w.rec.Emit(ev)
+	case "burst":
+		// s.N calls released together by a barrier; no schedule control: whatever interleaving the Go scheduler produces
+		w.drain()
+		w.gate.pass.Store(true)
+		type res struct {
+			node, ns string
+			ok       bool
+		}
+		out := make([]res, s.N)
+		start := make(chan struct{})
+		var wg sync.WaitGroup
+		for i := 0; i < s.N; i++ {
+			w.seq++
+			node, ns := s.Node, s.Ns
+			if s.Spread {
+				node, ns = c16Nodes[i%2], c16Nss[(i/2)%2]
+			}
+			pod := &corev1.Pod{ObjectMeta: metav1.ObjectMeta{Name: fmt.Sprintf("burst-%d", w.seq), Namespace: ns}, Spec: corev1.PodSpec{NodeName: node}}
+			out[i] = res{node: node, ns: ns}
+			wg.Add(1)
+			go func(i int) {
+				defer wg.Done()
+				<-start
+				out[i].ok = w.evict(context.TODO(), pod)
+			}(i)
+		}
+		close(start)
+		wg.Wait()
+		w.gate.pass.Store(false)
+		calls := []vu.Ev{}
+		for _, r := range out {
+			calls = append(calls, vu.Ev{"node": r.node, "ns": r.ns, "ok": r.ok})
+		}
+		w.rec.Emit(vu.Ev{"op": "burst", "n": s.N, "node": s.Node, "ns": s.Ns, "spread": s.Spread, "calls": calls, "counters": w.counts()})
 	case "finish":
 		name, ok := w.podOf[s.Caller]
 		if !ok {
@@ -145,6 +190,10 @@ func c16RandomSchedule(rng *rand.Rand, n int) []c16Step {
 	var out []c16Step
 	for i := 0; i < n; i++ {
 		c := callers[rng.Intn(len(callers))]
+		if rng.Intn(6) == 0 {
+			out = append(out, c16Step{Op: "burst", N: 2 + rng.Intn(7), Node: c16Nodes[rng.Intn(2)], Ns: c16Nss[rng.Intn(2)], Spread: rng.Intn(3) == 0})
+			continue
+		}
 		if rng.Intn(2) == 0 {
 			out = append(out, c16Step{Op: "start", Caller: c, Node: c16Nodes[rng.Intn(2)], Ns: c16Nss[rng.Intn(2)]})
 		} else {
@@ -197,6 +246,24 @@ func c16Main(t *testing.T, evictorName string, run func(rec *vu.Recorder, cfg c1
 	}
 	for i := 0; i < n; i++ {
 		run(rec, c16Configs(rng, 1)[0], c16RandomSchedule(rng, 10+rng.Intn(30)))
+	}
+	// (c) bursts on a fresh evictor (once a cap is reached every later call is refused outright, so each evictor gives
+	// one real chance to over-run a cap): several calls on one target released together, cap 1..3
+	nb := 1500
+	if vu.Thorough() {
+		nb = 20000
+	}
+	for i := 0; i < nb; i++ {
+		cfg := c16Step{Op: "reset", CapNode: c16NoCap, CapNs: c16NoCap, CapTotal: c16NoCap}
+		switch i % 3 {
+		case 0:
+			cfg.CapNode = 1 + rng.Intn(3)
+		case 1:
+			cfg.CapNs = 1 + rng.Intn(3)
+		default:
+			cfg.CapTotal = 1 + rng.Intn(3)
+		}
+		run(rec, cfg, []c16Step{{Op: "burst", N: 2 + rng.Intn(7), Node: "n1", Ns: "s1"}})
 	}
 	t.Logf("C16 caps (%s): %d segments, %d events", evictorName, rec.Segments(), rec.Events())
 }
